@@ -77,6 +77,10 @@ class World:
         scen['refuse_takes'] = rng.choice([0, 0, 0.5, 2.0]) if fault == 'disconnect-refuse' else 0
         # byte communicators with variable-length replies: the tail is fetched by the getFullReply hook
         scen['varlen'] = kind == 'bytes' and rng.random() < 0.4
+        scen['drop_inside'] = scen['varlen'] and fault in ('disconnect', 'disconnect-refuse') and rng.random() < 0.6
+        # the driver's getFullReply hook rejects the reply right before the drop with an error without a message
+        # (the last logged error is then an empty string when the connection is lost)
+        scen['hook_rejects'] = scen['varlen'] and fault in ('disconnect', 'disconnect-refuse') and rng.random() < 0.4
         # pause before sending (line communicators): data arriving during the pause is stale for the command
         scen['wait_before'] = rng.choice([0, 0, 0.05, 0.3]) if kind == 'string' else 0
         if kind == 'string' and rng.random() < 0.15:
@@ -121,6 +125,9 @@ class World:
                     if cmd.startswith(b'W'):
                         continue          # writeline: no reply expected
                     reply = (b'R:' + cmd + eolb) if scen['kind'] == 'string' else (b'R' + cmd[1:])
+                    if scen.get('hook_rejects') and n == scen['fault_at'] and not dev['dropped']:
+                        reply = b'X' + reply[1:]       # a reply the driver's hook does not accept
+                        dev['rejected'] = dev.get('rejected', 0) + 1
                     if scen.get('varlen') and not (fault == 'silence' and n > scen['fault_at']) and \
                             not (fault in ('disconnect', 'disconnect-refuse') and n > scen['fault_at'] and not dev['dropped']) and \
                             not (fault == 'late-reply' and n == scen['fault_at'] + 1):
@@ -135,8 +142,14 @@ class World:
                         continue
                     if fault in ('disconnect', 'disconnect-refuse') and n > scen['fault_at'] and not dev['dropped']:
                         dev['dropped'] = s.now
+                        dev['dropped_cmd'] = cmd
+                        dev['timeline'].append(('drop',))
                         if fault == 'disconnect-refuse':
                             dev['refuse_left'] = scen['refuse']
+                        if scen.get('drop_inside'):
+                            # the connection is lost INSIDE a variable-length reply: header sent, the tail never comes
+                            sock.peer_send(reply)
+                            dev['dropped_inside'] = True
                         sock.peer_close()
                         return
                     if fault == 'late-reply' and n == scen['fault_at'] + 1:
@@ -196,13 +209,21 @@ class World:
         updates = []
         cbcalls = []
         results = {}
-        info = {}
+        timeline = dev['timeline'] = []       # order of: drop by the device, is_connected updates, returns of calls
+        info = {'timeline': timeline}
 
         def root():
             s = D.CURRENT
             ns = {'__module__': __name__}
             if scen.get('varlen'):
-                ns['getFullReply'] = lambda self, request, header: header + self.readBytes(4)
+                from frappy.errors import CommunicationFailedError as CommFailed
+
+                def getFullReply(self, request, header):
+                    tail = self.readBytes(4)
+                    if header[:1] == b'X':
+                        raise CommFailed('')
+                    return header + tail
+                ns['getFullReply'] = getFullReply
             iocls = type('IO16', (base,), ns)
             cfg = {'io': {'cls': iocls, 'description': 'communicator', 'uri': 'tcp://devhost:5001', 'timeout': {'value': TIMEOUT}, 'pollinterval': {'value': 3}}}
             if scen['kind'] == 'string' and scen.get('eol', '\n') != '\n':
@@ -212,7 +233,7 @@ class World:
             node = self.nodes.Node(cfg, testonly=False).build()
             io = node.secnode.modules['io']
             info['io'] = io
-            io.addCallback('is_connected', lambda v, *a: updates.append((s.now, bool(v))))
+            io.addCallback('is_connected', lambda v, *a: (updates.append((s.now, bool(v))), timeline.append(('upd', bool(v)))))
             io.registerReconnectCallback('cb1', lambda: cbcalls.append((s.now, 'cb1')) or True)
             io.registerReconnectCallback('cb2', lambda: cbcalls.append((s.now, 'cb2')) or True)
             tokn = [0]
@@ -247,6 +268,7 @@ class World:
                     except Exception as e:
                         rec_['error'] = (type(e).__name__, str(e)[:120])
                     rec_['t_ret'] = s.now
+                    timeline.append(('ret', (i, j)))
             D.vsleep(0.01)
             ths = [D.CoThread(target=caller, args=(i,), name=f'caller{i}') for i in range(len(scen['callers']))]
             for t in ths:
@@ -388,11 +410,28 @@ class World:
         # ---- connection state and self healing
         if scen['fault'] in ('disconnect', 'disconnect-refuse') and dev['dropped']:
             r.count('reconnects_checked')
+            if dev.get('dropped_inside'):
+                r.count('drops_inside_a_variable_length_reply')
+            if dev.get('rejected'):
+                r.count('drops_after_a_reply_rejected_without_message')
             after = [u for u in updates if u[0] >= dev['dropped']]
             if not any(not v for _, v in after):
                 # nobody may have talked to the device after the drop: then the loss is not yet visible - only judged if a call failed
                 if any('error' in v and v['t_ret'] >= dev['dropped'] for v in results.values()):
                     r.violation('C16/disconnect-not-announced', f'is_connected updates after the drop: {after}', case)
+                    return
+            # a call that failed because the connection was lost has seen the loss: the state is visible from then on
+            # (not only when the next call happens to talk to the device)
+            # (decided on the order of events, not on the clock: the call whose command the device dropped the connection on)
+            tl = info['timeline']
+            seen_by = [k for k, v in results.items() if 'error' in v and dev.get('dropped_cmd') in [x if isinstance(x, bytes) else x.encode() for x in v.get('toks', [])]]
+            if seen_by and ('ret', seen_by[0]) in tl and ('drop',) in tl:
+                r.count('calls_that_saw_the_loss')
+                between = tl[tl.index(('drop',)):tl.index(('ret', seen_by[0]))]
+                if ('upd', False) not in between:
+                    where = 'inside-a-variable-length-reply' if dev.get('dropped_inside') else 'plain'
+                    r.violation(f'C16/disconnect-not-announced/by-the-failing-call/{where}', f'call {seen_by[0]} failed on the lost connection, events between the drop and '
+                                f'its return: {between[:8]}; is_connected updates after the drop: {[(round(t - dev["dropped"], 2), v) for t, v in after]}', case)
                     return
             att = [a for a in dev['attempts'] if a > dev['dropped']]
             who = [w_ for a, w_ in zip(dev['attempts'], dev['attempt_by']) if a > dev['dropped']]
